@@ -12,7 +12,7 @@ def run(ctx):
     lfull, lmax = (4, 8) if q else (6, 11)          # aggregation: full product up to lfull links, all patterns up to lmax
     n_aggr = 2500 if q else 60000                    # random aggregation cases per shard
     n_memo = 1500 if q else 20000                    # memo sequences per process
-    lc, pmax = (12, 1024) if q else (15, 8192)       # calendar: direction strings up to lc links x publication times 0..pmax
+    lc, pmax = (12, 1024) if q else (15, 4096)       # calendar: direction strings up to lc links x publication times 0..pmax
     n_calr = 20000 if q else 400000                  # random calendar cases per shard
     ls, n_shape = (14, 2000) if q else (20, 40000)   # shape: all patterns up to ls links; random patterns per length 56..70
 
